@@ -112,6 +112,7 @@ impl Sub for ApproxExp {
         let want = model::approx_exp(c.x, c.ccs);
         let got = hook::approx_exp(c.x, c.ccs);
         ensure!(got == want, "sampler:approx_exp", "ApproxExp({:e}, {}) = {} but the library returns {} (difference {})", c.x, c.ccs, want, got, got as i128 - want as i128);
+        ensure!(hook::approx_exp(c.x, c.ccs) == got, "sampler:approx_exp-not-repeatable", "a second ApproxExp({:e}, {}) right after the first gives a different result", c.x, c.ccs);
         // and the value itself approximates 2^63 * ccs * exp(-x): within 2^-45 of the scale 2^63
         let ideal = 9223372036854775808.0 * c.ccs * (-c.x).exp();
         let err = (got as f64 - ideal).abs() / 9223372036854775808.0;
@@ -189,6 +190,7 @@ impl Sub for BerExp {
             st.nontrivial(&(c.x.to_bits(), c.ccs.to_bits(), bytes));
             return Ok(());
         }
+        ensure!(hook::ber_exp(c.x, c.ccs, bytes) == got, "sampler:ber_exp-not-repeatable", "a second BerExp call with the same arguments gives a different result");
         let got_b = if got { Ber::Accept } else { Ber::Reject };
         ensure!(allowed.contains(&got_b), "sampler:ber_exp", "BerExp(x = {:e}, ccs = {}, bytes = {}) must be {:?} but the library returns {} (tie depth {})", c.x, c.ccs, hex(&bytes), allowed, got, depth);
         if allowed.len() > 1 {
